@@ -15,7 +15,7 @@ PROPS = {
     'C02': dict(units=['store'], kani=['lock'], assumptions=A_COMMON + A_CHAN),
     'C03': dict(units=['store'], assumptions=A_COMMON),
     'C04': dict(units=['store'], kani=['lock'], assumptions=A_COMMON + A_CHAN + A_POOL),
-    'C05': dict(units=['store'], assumptions=A_COMMON + A_CHAN),
+    'C05': dict(units=['store'], kani=['lock'], assumptions=A_COMMON + A_CHAN),
     'C06': dict(units=['store'], kani=['lock'], assumptions=A_COMMON + A_CHAN),
     'C07': dict(units=['store'], assumptions=A_COMMON + A_POOL),
     'C08': dict(units=['store'], assumptions=A_COMMON),
@@ -27,7 +27,7 @@ PROPS = {
     'C15': dict(units=['store'], kani=['lock'], assumptions=A_COMMON + A_CHAN + A_POOL),
     'C16': dict(units=['store'], kani=['selector'], assumptions=A_COMMON),
     'C17': dict(units=['store'], assumptions=A_COMMON),
-    'C18': dict(units=['store'], kani=['metrics'], assumptions=A_COMMON + A_CHAN),
+    'C18': dict(units=['store'], kani=['metrics', 'lock'], assumptions=A_COMMON + A_CHAN),
     'C19': dict(units=['store'], assumptions=A_COMMON),
 }
 PROPS['C15']['also'] = ['C04']   # dropping a DroppableStore IS stop(): every obligation of C04 is an obligation of C15
@@ -49,7 +49,7 @@ TEXT = {
  'C04': dict(engine='verus+kani', ref='4-C04', technique='Verus: close/stop/dispatch/loop-exit contracts over cell and channel ghost state; Kani: Exit is enqueued under the dispatch lock',
    level='proof that close empties the sender slot and hands over exactly one Exit (under the lock: Kani), that a closed store rejects dispatch through every entry point without handing anything over, that second close/stop do nothing, that the loop processes nothing after Exit and then releases every subscriber once, and that nothing is spawned once the pool slot is empty',
    note='that shutdown_join* really waits for the running loop and queued jobs is the assumed contract of rusty_pool (A4); timing is not decided'),
- 'C05': dict(engine='verus', ref='4-C05', technique='Verus: BlockOnFull arm of SenderChannel::send against the bounded-FIFO ghost channel; capacity >= 1 precondition chain build -> new_with -> pair_with',
+ 'C05': dict(engine='verus+kani', ref='4-C05', technique='Verus: BlockOnFull arm of SenderChannel::send against the bounded-FIFO ghost channel; capacity >= 1 precondition chain build -> new_with -> pair_with; Kani: every hand-over (actions and the Exit marker) happens under the dispatch lock, so no accepted action can end up behind Exit',
    level='proof of the safety half: the blocking policy performs exactly one blocking send and never removes, refuses or counts anything; the queue never exceeds the configured capacity (wf invariant); the channel is created with exactly the configured non-zero capacity',
    note='"the caller resumes", "eventually reduced" are liveness and are not decided; A2'),
  'C06': dict(engine='verus', ref='4-C06', technique='Verus: SenderChannel::send against a ghost queue with consumer interference (rely/guarantee), exact transformer when the consumer is stalled',
